@@ -249,8 +249,185 @@ fn o_state(c: &mut VmCase) -> String {
     }
 }
 
+/// C12: a single access / crypto op against the hash and sign crates called directly.
+fn o_access(c: &mut VmCase) -> String {
+    use essential_asm::{Access as A, Crypto as K};
+    let ops = match asm::from_bytes(c.prog.iter().copied()).collect::<Result<Vec<_>, _>>() {
+        Ok(o) => o,
+        Err(_) => return "na".into(),
+    };
+    let [op] = ops[..] else { return "na not a single op".into() };
+    let st: Vec<i64> = c.vm.stack.to_vec();
+    let n = st.len();
+    let sol = c.sols[c.index].clone();
+    let (state, _calls) = views(c);
+    let access = Access::new(Arc::new(c.sols.clone()), c.index as u16);
+    let cost = &c.cost;
+    let costf = move |op: &Op| cost.of(op);
+    let limit = GasLimit { per_yield: GasLimit::DEFAULT_PER_YIELD, total: c.limit };
+    let r = c.vm.exec_ops(&ops, access, &state, &costf, limit);
+    let out: Vec<i64> = c.vm.stack.to_vec();
+    let words4 = |b: &[u8; 32]| -> Vec<i64> { essential_types::convert::word_4_from_u8_32(*b).to_vec() };
+    // expected new stack (None = the op must fail), from the documentation and the hash/sign crates
+    let expect: Option<Vec<i64>> = match op {
+        Op::Access(A::ThisAddress) => Some([&st[..], &words4(&sol.predicate_to_solve.predicate.0)].concat()),
+        Op::Access(A::ThisContractAddress) => Some([&st[..], &words4(&sol.predicate_to_solve.contract.0)].concat()),
+        Op::Access(A::PredicateDataSlots) => Some([&st[..], &[sol.predicate_data.len() as i64]].concat()),
+        Op::Access(A::PredicateDataLen) => {
+            if n < 1 {
+                None
+            } else {
+                usize::try_from(st[n - 1]).ok().and_then(|s| sol.predicate_data.get(s)).map(|slot| [&st[..n - 1], &[slot.len() as i64]].concat())
+            }
+        }
+        Op::Access(A::PredicateData) => {
+            if n < 3 {
+                None
+            } else {
+                let (slot, ix, len) = (st[n - 3], st[n - 2], st[n - 1]);
+                (|| {
+                    let slot = sol.predicate_data.get(usize::try_from(slot).ok()?)?;
+                    let (ix, len) = (usize::try_from(ix).ok()?, usize::try_from(len).ok()?);
+                    let ws = slot.get(ix..ix.checked_add(len)?)?;
+                    Some([&st[..n - 3], ws].concat())
+                })()
+            }
+        }
+        Op::Access(A::PredicateExists) => {
+            if n < 4 {
+                None
+            } else {
+                let want: Vec<u8> = st[n - 4..].iter().flat_map(|w| w.to_be_bytes()).collect();
+                let found = c.sols.iter().any(|s| {
+                    let mut words: Vec<i64> = vec![];
+                    for slot in &s.predicate_data {
+                        words.push(slot.len() as i64);
+                        words.extend(slot);
+                    }
+                    words.extend(words4(&s.predicate_to_solve.contract.0));
+                    words.extend(words4(&s.predicate_to_solve.predicate.0));
+                    essential_hash::hash_words(&words)[..] == want[..]
+                });
+                Some([&st[..n - 4], &[found as i64]].concat())
+            }
+        }
+        Op::Crypto(K::Sha256) => (|| {
+            let len = usize::try_from(*st.last()?).ok()?;
+            let nw = len.div_ceil(8);
+            if nw + 1 > n {
+                return None;
+            }
+            let bytes: Vec<u8> = st[n - 1 - nw..n - 1].iter().flat_map(|w| w.to_be_bytes()).take(len).collect();
+            // whole words => hash_words, otherwise hash_bytes: both must agree with the op
+            let h = if len == nw * 8 { essential_hash::hash_words(&st[n - 1 - nw..n - 1]) } else { essential_hash::hash_bytes(&bytes) };
+            Some([&st[..n - 1 - nw], &words4(&h)].concat())
+        })(),
+        Op::Crypto(K::VerifyEd25519) => (|| {
+            if n < 13 {
+                return None;
+            }
+            let pk: Vec<u8> = st[n - 4..].iter().flat_map(|w| w.to_be_bytes()).collect();
+            let sig: Vec<u8> = st[n - 12..n - 4].iter().flat_map(|w| w.to_be_bytes()).collect();
+            let len = usize::try_from(st[n - 13]).ok()?;
+            let nw = len.div_ceil(8);
+            if nw + 13 > n {
+                return None;
+            }
+            let data: Vec<u8> = st[n - 13 - nw..n - 13].iter().flat_map(|w| w.to_be_bytes()).take(len).collect();
+            match crate::fam_crypto::ed_verify(&pk, &sig, &data) {
+                2 => None,
+                v => Some([&st[..n - 13 - nw], &[v as i64]].concat()),
+            }
+        })(),
+        Op::Crypto(K::RecoverSecp256k1) => (|| {
+            if n < 13 {
+                return None;
+            }
+            let id = i32::try_from(st[n - 1]).ok()?;
+            let sig: Vec<u8> = st[n - 9..n - 1].iter().flat_map(|w| w.to_be_bytes()).collect();
+            let hash: Vec<u8> = st[n - 13..n - 9].iter().flat_map(|w| w.to_be_bytes()).collect();
+            // the sign crate's recovery + the sign crate's word encoding of the key
+            let sig_t = essential_types::Signature(sig.clone().try_into().ok()?, u8::try_from(id).ok()?);
+            let via_sign_crate = essential_sign::recover_hash(hash.clone().try_into().ok()?, &sig_t)
+                .ok()
+                .map(|pk| essential_sign::encode::public_key(&pk).to_vec());
+            match crate::fam_crypto::secp_recover(&hash, &sig, id) {
+                crate::fam_crypto::Secp::Bad => None,
+                crate::fam_crypto::Secp::Unrecoverable => Some([&st[..n - 13], &[0i64; 5][..]].concat()),
+                crate::fam_crypto::Secp::Key(_) => Some([&st[..n - 13], &via_sign_crate?[..]].concat()),
+            }
+        })(),
+        _ => return "na".into(),
+    };
+    match (r, expect) {
+        (Ok(_), Some(e)) => {
+            if e.len() > STACK_LIMIT {
+                "FAIL op succeeds beyond the stack limit".into()
+            } else if out == e {
+                "ok value".into()
+            } else {
+                format!("FAIL stack {:?} expected {:?}", &out[out.len().saturating_sub(8)..], &e[e.len().saturating_sub(8)..])
+            }
+        }
+        (Err(_), None) => "ok error".into(),
+        (Err(e), Some(x)) => {
+            if x.len() > STACK_LIMIT {
+                "ok overflow".into()
+            } else {
+                format!("FAIL op fails ({}) but a result is documented", show_exec_err(&e))
+            }
+        }
+        (Ok(_), None) => "FAIL op succeeds on an out-of-range / malformed request".into(),
+    }
+}
+
+/// C14: executing the op list and executing the mapped bytecode must agree on everything.
+fn o_both(c: &mut VmCase) -> String {
+    use essential_vm::BytecodeMapped;
+    let ops = match asm::from_bytes(c.prog.iter().copied()).collect::<Result<Vec<_>, _>>() {
+        Ok(o) => o,
+        Err(_) => return "na".into(),
+    };
+    let owned = match BytecodeMapped::try_from(c.prog.clone()) {
+        Ok(m) => m,
+        Err(_) => return "FAIL parse ok but mapping fails".into(),
+    };
+    let borrowed = BytecodeMapped::try_from(&c.prog[..]).expect("as owned");
+    let mut outs = vec![];
+    for which in 0..3 {
+        let (state, _calls) = views(c);
+        let access = Access::new(Arc::new(c.sols.clone()), c.index as u16);
+        let cost = &c.cost;
+        let costf = move |op: &Op| cost.of(op);
+        let limit = GasLimit { per_yield: GasLimit::DEFAULT_PER_YIELD, total: c.limit };
+        let mut vm = c.vm.clone();
+        let r = match which {
+            0 => vm.exec_ops(&ops, access, &state, &costf, limit),
+            1 => vm.exec_bytecode(&owned, access, &state, &costf, limit),
+            _ => vm.exec_bytecode(&borrowed, access, &state, &costf, limit),
+        };
+        outs.push(match r {
+            Ok(g) => show_vm(g, &vm),
+            Err(e) => show_exec_err(&e),
+        });
+    }
+    if outs[0] == outs[1] && outs[1] == outs[2] {
+        "ok same".into()
+    } else {
+        format!("FAIL exec_ops: {} | exec_bytecode(owned): {} | exec_bytecode(borrowed): {}", outs[0], outs[1], outs[2])
+    }
+}
+
 pub fn run(fam: &str, t: &mut Toks) -> Option<R<String>> {
     match fam {
+        "o_both" => Some((|| {
+            let mut c = p_case(t)?;
+            Ok(o_both(&mut c))
+        })()),
+        "o_access" => Some((|| {
+            let mut c = p_case(t)?;
+            Ok(o_access(&mut c))
+        })()),
         "o_state" => Some((|| {
             let mut c = p_case(t)?;
             Ok(o_state(&mut c))
